@@ -678,6 +678,13 @@ _STDLIB_FROM = {("io", "BytesIO"): _io.BytesIO, ("struct", "calcsize"): struct.c
                 ("math", "log10"): math.log10, ("re", "compile"): re.compile}
 
 
+class _Link:
+    """lazy reference to a global of another interpreted module"""
+
+    def __init__(self, rel, name):
+        self.rel, self.name = rel, name
+
+
 class VMModule:
     def __init__(self, module, vm):
         self.module, self.vm = module, vm
@@ -701,14 +708,25 @@ class VMModule:
                     top = a.name.split(".")[0]
                     self._g[a.asname or top] = _STDLIB.get(a.name if a.asname else top, Opaque(a.name))
             elif isinstance(n, ast.ImportFrom):
+                key = "." * (n.level or 0) + (n.module or "")
                 for a in n.names:
-                    self._g[a.asname or a.name] = _STDLIB_FROM.get((n.module or "", a.name), _STDLIB.get(a.name) if (n.module or "") == "" else Opaque(f"{n.module}.{a.name}"))
+                    if key in vm.siblings:                                     # from ._v1parser import V1Parser
+                        self._g[a.asname or a.name] = _Link(key, a.name)
+                    elif key + a.name in vm.siblings and set(key) <= {"."}:   # from . import _info
+                        self._g[a.asname or a.name] = _Link(key + a.name, None)
+                    else:
+                        self._g[a.asname or a.name] = _STDLIB_FROM.get((n.module or "", a.name), _STDLIB.get(a.name) if key == "" else Opaque(f"{key}.{a.name}"))
             elif isinstance(n, (ast.If, ast.Try)):
                 stack = list(n.body) + list(getattr(n, "orelse", [])) + stack
 
     def globals_lookup(self, name, missing=VMError):
         if name in self._g:
-            return self._g[name]
+            v = self._g[name]
+            if isinstance(v, _Link):
+                other = self.vm.sibling(v.rel)
+                v = other if v.name is None else other.globals_lookup(v.name)
+                self._g[name] = v
+            return v
         if name in self._lazy:
             expr = self._lazy.pop(name)
             self._g[name] = self.vm.eval(expr, {}, self, None)
@@ -723,11 +741,20 @@ class VMModule:
 
 
 class MiniVM:
-    def __init__(self, module, hooks=None, budget: int = 400000):
-        """``hooks``: {method name: callable(vm, obj, *args)} consulted before the class's own method."""
+    def __init__(self, module, hooks=None, budget: int = 400000, siblings=None):
+        """``hooks``: {method name: callable(vm, obj, *args)} consulted before the class's own method.
+        ``siblings``: {import key as written in the source (".mod", "pkg.mod"): sa.source.Module} - other repository modules that
+        are interpreted as well when imported from (everything else imported is Opaque)."""
         self.budget = budget
         self.hooks = dict(hooks or {})
+        self.siblings = dict(siblings or {})
+        self._sib: Dict[str, VMModule] = {}
         self.mod = VMModule(module, self)
+
+    def sibling(self, key) -> "VMModule":
+        if key not in self._sib:
+            self._sib[key] = VMModule(self.siblings[key], self)
+        return self._sib[key]
 
     # ---- objects -------------------------------------------------------------------------------------------
     def cls(self, name) -> VMClass:
@@ -784,21 +811,40 @@ class MiniVM:
                 a = self.class_attr(v.cls, name)
             except AttributeError:
                 raise VMRaise_native(AttributeError(f"{v.cls.name} object has no attribute {name}"))
-            return VMBound(v, a) if isinstance(a, VMFunc) else a
+            return self._bind(a, v, v.cls)
         if isinstance(v, VMClass):
             if name == "__name__":
                 return v.name
             try:
-                return self.class_attr(v, name)
+                a = self.class_attr(v, name)
             except AttributeError:
                 raise VMRaise_native(AttributeError(name))
+            return self._bind(a, None, v)
         if isinstance(v, Opaque):
             return Opaque(f"{v._name}.{name}")
+        if isinstance(v, VMModule):
+            return v.globals_lookup(name)
         if isinstance(v, _NATIVE_TYPES) or v in _STDLIB.values() or isinstance(v, VMStub):
             if name.startswith("__") and name not in ("__class__", "__name__"):
                 raise VMError(f"dunder access .{name}")
             return getattr(v, name)
         raise VMError(f"attribute .{name} of {type(v).__name__}")
+
+    @staticmethod
+    def _decorators(func):
+        return {(dotted(d) or "").split(".")[-1] for d in getattr(func.node, "decorator_list", [])}
+
+    def _bind(self, a, obj, cls):
+        if not isinstance(a, VMFunc):
+            return a
+        decs = self._decorators(a)
+        if "staticmethod" in decs:
+            return a
+        if "classmethod" in decs:
+            return VMBound(cls, a)
+        if "property" in decs and obj is not None:
+            return self._run(a, [obj], {})
+        return VMBound(obj, a) if obj is not None else a
 
     def setattr(self, v, name, val):
         if isinstance(v, VMObj):
@@ -1062,7 +1108,7 @@ class MiniVM:
     # ---- expressions --------------------------------------------------------------------------------------------------
     @staticmethod
     def truth(v):
-        if isinstance(v, (VMObj, VMClass, Opaque, VMFunc, VMBound)):
+        if isinstance(v, (VMObj, VMClass, Opaque, VMFunc, VMBound, VMModule)):
             return True
         return bool(v)
 
@@ -1133,8 +1179,29 @@ class MiniVM:
             return self.getattr(self.eval(e.value, env, mod, owner), e.attr)
         if isinstance(e, ast.Call):
             if isinstance(e.func, ast.Name) and e.func.id == "super":
-                raise VMError("super()")
-            fn = self.eval(e.func, env, mod, owner)
+                raise VMError("bare super()")
+            if isinstance(e.func, ast.Attribute) and isinstance(e.func.value, ast.Call) and isinstance(e.func.value.func, ast.Name) \
+                    and e.func.value.func.id == "super" and not e.func.value.args:
+                # super().m(...): next definition of m after the defining class in the receiver's MRO; a base class outside the
+                # interpreted modules is opaque (the call has no effect)
+                selfv = env.get("self") if isinstance(env, dict) else None
+                if owner is None or not isinstance(selfv, VMObj):
+                    raise VMError("super() outside a method")
+                mro = selfv.cls.mro()
+                names = [c.name for c in mro]
+                rest = mro[names.index(owner.name) + 1:] if owner.name in names else []
+                fn = None
+                for c in rest:
+                    o = c.own(e.func.attr)
+                    if o is not None and o[0] == "func":
+                        fn = VMBound(selfv, VMFunc(c.mod, o[1], c))
+                        break
+                if fn is None:
+                    for a in e.args:
+                        self.eval(a, env, mod, owner)
+                    return None
+            else:
+                fn = self.eval(e.func, env, mod, owner)
             args = []
             for a in e.args:
                 if isinstance(a, ast.Starred):
